@@ -7,6 +7,7 @@ CONSTANTS
   MaxT6 = 1
   MaxPk = 5
   RRs = {"cpr0"}
+  SecondConn = FALSE
   ScopeSensitive = FALSE
   Faults = {"wfail", "dialfail"}
 INVARIANTS NoDup Conservation HeldAreInitials BatchOrdered CompleteAtEnd NameRoutes OneTransport Emit
